@@ -5,6 +5,7 @@ pub mod c13;
 pub mod conn;
 pub mod smoke;
 pub mod tables;
+pub mod tower;
 
 use serde_json::Value;
 use std::collections::HashMap;
@@ -42,6 +43,9 @@ pub fn dispatch(args: &[String]) -> i32 {
         "c10" => c10::main(&a),
         "c13" => c13::main(&a),
         "table-tiebreak" => tables::tiebreak(&a),
+        "replay-inflight" => tower::replay_inflight(&a),
+        "replay-auth" => tower::replay_auth(&a),
+        "replay-rate" => tower::replay_rate(&a),
         other => {
             eprintln!("unknown scenario {other}");
             2
